@@ -135,6 +135,15 @@ def res_case(L, queries, tag, nomodel=False):
                 for n in L.loose_names():
                     if ext.startswith(".") and n.endswith(ext) and n.rfind(".") == len(n) - len(ext) and n.upper() not in got:
                         return f"loose file {n!r} has extension {ext!r} but is not listed"
+                # completeness for archive members: a member whose extension is the requested one (ignoring case; the request may
+                # omit the leading dot; the empty request means "no extension") is listed whenever archives are searched
+                if q[2]:
+                    want = ext if (ext == "" or ext.startswith(".")) else "." + ext
+                    for _, ms in L.archives():
+                        for n, _ in ms:
+                            mext = n[n.rfind("."):] if "." in n else ""
+                            if mext.upper() == want.upper() and n.upper() not in got:
+                                return f"archive member {n!r} has extension {want!r} but the type listing for {ext!r} omits it"
                 from collections import Counter
                 cnt = Counter(got); lc = Counter(x for x in loose_up if x in cnt)
                 for g, k in cnt.items():
